@@ -28,6 +28,7 @@ import (
 	"bytes"
 	"fmt"
 	"go/ast"
+	"go/build"
 	"go/constant"
 	"go/format"
 	"go/importer"
@@ -51,21 +52,12 @@ func die(n ast.Node, f string, a ...any) {
 	os.Exit(1)
 }
 
-func onlyUnderVerifTag(path string) bool {
-	data, err := os.ReadFile(path)
-	if err != nil {
-		return false
-	}
-	for _, line := range strings.Split(string(data), "\n") {
-		t := strings.TrimSpace(line)
-		if strings.HasPrefix(t, "package ") {
-			return false
-		}
-		if strings.HasPrefix(t, "//go:build") {
-			return strings.TrimSpace(strings.TrimPrefix(t, "//go:build")) == "verif"
-		}
-	}
-	return false
+func matchFile(dir, name string) bool {
+	ctx := build.Default
+	ctx.BuildTags = nil
+	ctx.CgoEnabled = true
+	ok, err := ctx.MatchFile(dir, name)
+	return err == nil && ok
 }
 
 // key of a function or method declared in the package: "f" or "T.m"
@@ -401,7 +393,7 @@ func main() {
 	}
 	fset = token.NewFileSet()
 	pkgs, err := parser.ParseDir(fset, dir, func(fi os.FileInfo) bool {
-		return !strings.HasSuffix(fi.Name(), "_test.go") && !onlyUnderVerifTag(filepath.Join(dir, fi.Name()))
+		return !strings.HasSuffix(fi.Name(), "_test.go") && matchFile(dir, fi.Name()) // the files of the ordinary build (go/build rules)
 	}, 0)
 	if err != nil {
 		fmt.Fprintln(os.Stderr, "okgen:", err)
